@@ -84,10 +84,15 @@ pub(crate) fn schema_extension(p: &mut Parser) {
     if let Some(T!['{']) = p.peek() {
         p.bump(S!['{']);
 
+        let mut has_root_operation_types = false;
         p.peek_while_kind(TokenKind::Name, |p| {
             meets_requirements = true;
+            has_root_operation_types = true;
             root_operation_type_definition(p);
         });
+        if !has_root_operation_types && meets_requirements {
+            p.err("expected Root Operation Type Definition");
+        }
 
         p.expect(T!['}'], S!['}']);
     }
